@@ -300,3 +300,5 @@ class C04(Check):
 
 
 CHECK = C04()
+# scope added in later rounds, kept in the evidence text
+CHECK.rule += ' Every multi-record file also with an empty line between the records.'
